@@ -1,4 +1,5 @@
 CONSTANTS Codes = {0} SizeVals = {0} MRows = 1 MCols = 1 Gfxs = {32} UnreprSets = {}
 SPECIFICATION TSpec
+INVARIANT AllAccepted
 POSTCONDITION TraceAccepted
 CHECK_DEADLOCK FALSE
